@@ -656,6 +656,14 @@ class PrecipitateBase(GenericModel):
             aspectRatio = precParams.shapeFactor.aspectRatio(self.pData.Rcrit[self.pData.n, p])
             _, volDG, self._precBetaTemp[p] = nucfuncs.volumetricDrivingForce(self.therm, xComp, T, precParams, aspectRatio, self.removeCache)
             Y.drivingForce[0,p] = volDG
+
+            # Y holds the values of the previous state, so clear the nucleation terms in case one of the checks below skips the calculation
+            # Otherwise nucleation would continue at the previous rate when the driving force becomes negative
+            Y.Rcrit[0,p] = 0
+            Y.Gcrit[0,p] = 0
+            Y.impingement[0,p] = 0
+            Y.nucRate[0,p] = 0
+            Y.Rnuc[0,p] = 0
             if volDG < 0:
                 continue
 
